@@ -107,7 +107,12 @@ func parseSpec(src string) (e SExpr, err error) {
 	fset := token.NewFileSet()
 	f := fset.AddFile("", fset.Base(), len(src))
 	var s scanner.Scanner
-	s.Init(f, []byte(src), func(pos token.Position, msg string) { panic(msg) }, 0)
+	s.Init(f, []byte(src), func(pos token.Position, msg string) {
+		if strings.Contains(msg, "U+003F") {
+			return
+		}
+		panic(msg)
+	}, 0)
 	for {
 		pos, tok, lit := s.Scan()
 		if tok == token.EOF {
